@@ -11,6 +11,7 @@
 //	serve [cookie=<scheme>,<host>,<path|->] [mutate=host|path|scheme] -> 200 <url seen downstream> fresh|alias | 500 <kind>
 //	rate <scheme> <host> <path|-> <num>/<den> | ready … 0|1           -> ok | err notfound   (scripted meter of that server)
 //	adv <ns>                                                         -> ok
+//	serve-remove <scheme> <host> <path|->                            -> <serve output> ; <remove output>   (RemoveServer issued while the request's adjustment pushes weights)
 //	race <pairs> <reqs>                                              -> race ok | race nonmember=<n>   (add+remove of a reserved server racing with requests)
 package main
 
@@ -48,6 +49,7 @@ type front interface {
 
 type h struct {
 	rr     *roundrobin.RoundRobin
+	lb     *pausingLB // via=rb only: between the Rebalancer and rr
 	fr     front
 	sticky bool
 	now    int64
@@ -255,6 +257,70 @@ func (s *h) Op(f []string) string {
 			}
 		}
 		return fmt.Sprintf("%d %s %s", rec.Code, s.seenStr, al)
+	case "serve-remove":
+		// a request, and RemoveServer issued at the moment the request's weight adjustment starts pushing
+		// weights into the balancer (if it adjusts at all; otherwise right after the request).  Calls are
+		// atomic, so the outcome must be the sequential one: the request, then the removal.
+		if len(f) != 4 {
+			return "bad-op"
+		}
+		ru := mkURL(nil, f[1], f[2], f[3])
+		s.mutate = ""
+		s.called, s.seen, s.seenStr, s.errKind = false, nil, "", ""
+		rec := httptest.NewRecorder()
+		req := httptest.NewRequest(http.MethodGet, "http://front.example/req", nil)
+		var rmErr error
+		if s.lb == nil {
+			s.fr.ServeHTTP(rec, req)
+			rmErr = s.fr.RemoveServer(ru)
+		} else {
+			reached, resume := s.lb.arm()
+			reqDone := make(chan struct{})
+			go func() {
+				defer close(reqDone)
+				s.fr.ServeHTTP(rec, req)
+			}()
+			select {
+			case <-reqDone: // no weight was pushed
+				s.lb.disarm()
+				rmErr = s.fr.RemoveServer(ru)
+			case <-reached:
+				rmDone := make(chan error, 1)
+				go func() { rmDone <- s.fr.RemoveServer(ru) }()
+				select {
+				case rmErr = <-rmDone: // the removal went through in the middle of the weight push
+					close(resume)
+					<-reqDone
+				case <-time.After(25 * time.Millisecond): // it waits for the adjustment to finish, as it should
+					close(resume)
+					<-reqDone
+					rmErr = <-rmDone
+				}
+			}
+		}
+		var a string
+		if !s.called {
+			a = fmt.Sprintf("%d %s", rec.Code, s.errKind)
+		} else {
+			al := "fresh"
+			for _, u := range s.fr.Servers() {
+				if u == s.seen {
+					al = "alias"
+				}
+			}
+			a = fmt.Sprintf("%d %s %s", rec.Code, s.seenStr, al)
+		}
+		b := "ok"
+		if rmErr != nil {
+			if strings.Contains(rmErr.Error(), "not found") {
+				b = "err notfound"
+			} else {
+				b = "err other_" + strings.ReplaceAll(rmErr.Error(), " ", "_")
+			}
+		} else {
+			delete(s.meters, key(ru))
+		}
+		return a + " ; " + b
 	case "race":
 		// administration calls racing with requests: one goroutine adds and removes a reserved server
 		// <pairs> times while another issues <reqs> requests and NextServer calls; every routed URL must be
@@ -389,7 +455,8 @@ func main() {
 		if s.sticky {
 			ropts = append(ropts, roundrobin.RebalancerStickySession(roundrobin.NewStickySession("vsticky")))
 		}
-		rb, err := roundrobin.NewRebalancer(s.rr, ropts...)
+		s.lb = &pausingLB{RoundRobin: s.rr}
+		rb, err := roundrobin.NewRebalancer(s.lb, ropts...)
 		if err != nil {
 			return nil, "err " + err.Error()
 		}
